@@ -152,6 +152,105 @@ def check_structure(chk, m, L, N, I):
     chk.expect("N2", "link-slot insertions on paths", n_end, 5)
 
 
+def path_equalities(p):
+    """same(a, b): are the two expressions equal on path p, syntactically or through the path's == / != decisions?"""
+    parent = {}
+
+    def find(x):
+        while parent.get(x, x) != x:
+            x = parent[x]
+        return x
+    for c, t, i in p.conds:
+        cc = strip_casts(c)
+        if cc[0] == "icmp" and cc[1] in ("eq", "ne") and (cc[1] == "eq") == bool(t):
+            a, b = find(strip_casts(cc[2])), find(strip_casts(cc[3]))
+            if a != b:
+                parent[a] = b
+    return lambda a, b: find(strip_casts(a)) == find(strip_casts(b))
+
+
+def check_self_walking_remove(chk, m, fn, L, N):
+    """list_remove that searches and unlinks in one walk over the links (no list_contains / iterator).  On every returning
+    segment: `true` only after a complete unlink of the slot found to hold the node -- slot := node->next, node->next := NULL,
+    and tail := containerof(slot) exactly when the node was the tail -- or after delegating to list_extract with the node found
+    at the head; `false` only at a NULL link and without touching the list."""
+    head_o, tail_o, next_o = L["head"], L["tail"], N["next"]
+    node = ("arg", 1)
+    n_ret = 0
+    for s, p in runs_of(m, fn):
+        if p.end != "ret" or p.ret is None:
+            continue
+        n_ret += 1
+        same = path_equalities(p)
+        ev = p.events
+        stores = [(k, e) for k, e in enumerate(ev) if e.kind == "store"]
+        calls = [e for e in ev if e.kind == "call"]
+        ret = strip_casts(p.ret)
+        sid = "list_remove %s..ret %s" % (s.lstrip("%"), fmt(ret)[:40])
+        loc = p.ret_inst.loc
+        head_is_node = any(e.kind == "load" and ptr_parts(e.ptr) == (("arg", 0), head_o, ()) and same(e.val, node) for e in ev)
+        ext = [c for c in calls if c.callee == "list_extract" and c.args and c.args[0] == ("arg", 0)]
+        if ext:
+            # delegation: the node was found at the head, list_extract (checked by N1/N2 itself) takes exactly the head
+            truthy = (ret[0] == "c" and ret[2] != 0) or (ret[0] == "icmp" and ret[1] == "ne" and {ret[2], ret[3]} == {ext[0].res, ("null",)})
+            chk.ob("N5.remove-through-found-position", sid, head_is_node and truthy and not stores,
+                   "the node was found at list->head and is taken off by list_extract; the result reports the removal", loc, fn.name)
+            continue
+        if ret[0] != "c":
+            chk.unknown("N5.remove-through-found-position", sid, "list_remove returns %s, which is not a constant nor a recognised delegation" % fmt(ret)[:60], loc)
+            continue
+        if not ret[2]:
+            at_end = any(strip_casts(c)[0] == "icmp" and strip_casts(c)[1] in ("eq", "ne") and ("null",) in strip_casts(c)[2:4]
+                         and (strip_casts(c)[1] == "eq") == bool(t) and id(i) for c, t, i in p.conds)
+            chk.ob("N5.remove-through-found-position", sid, not stores and not [c for c in calls if isinstance(c.callee, str) and c.callee.startswith("list_")] and at_end,
+                   "false is returned at a NULL link (end of the list) and without modifying the list", loc, fn.name)
+            continue
+        # ---- returns true: the unlink
+        unl = None
+        for k, e in stores:
+            v = strip_casts(e.val)
+            if v[0] == "ld" and ptr_parts(v[1])[1:] == (next_o, ()) and same(ptr_parts(v[1])[0], node):
+                held = [x for x in ev[:k] if x.kind == "load" and x.ptr == e.ptr and same(x.val, node)]
+                if held:
+                    unl = (k, e, v)
+        chk.ob("N5.remove-through-found-position", sid, unl is not None,
+               "true is returned after slot := node->next on the slot that was read and found to hold the node", loc, fn.name)
+        if unl is None:
+            continue
+        k_unl, e_unl, succ = unl
+        k_succ = [k for k, x in enumerate(ev) if x.kind == "load" and x.val == succ][0]
+        clears = [k for k, x in stores if x.val == ("null",) and ptr_parts(x.ptr)[1:] == (next_o, ()) and same(ptr_parts(x.ptr)[0], node) and k > k_succ]
+        chk.ob("N1.clear-on-unlink", sid, bool(clears),
+               "the unlinked node's next pointer is reset to NULL (a removed node is immediately reusable; every inserter asserts "
+               "node->next == NULL)", e_unl.inst.loc, fn.name)
+        first_clear = min(clears, default=len(ev))
+        succ_vals = [x.val for x in ev[:first_clear] if x.kind == "load" and ptr_parts(x.ptr)[1:] == (next_o, ()) and same(ptr_parts(x.ptr)[0], node)]
+        is_tail = None
+        for c, t, i in p.conds:
+            cc = strip_casts(c)
+            if cc[0] != "icmp" or cc[1] not in ("eq", "ne"):
+                continue
+            a, b = strip_casts(cc[2]), strip_casts(cc[3])
+            for x, y in ((a, b), (b, a)):
+                if x[0] == "ld" and ptr_parts(x[1]) == (("arg", 0), tail_o, ()) and same(y, node):
+                    is_tail = (cc[1] == "eq") == bool(t)
+                if x == ("null",) and y in succ_vals:
+                    is_tail = (cc[1] == "eq") == bool(t)
+        tail_st = [x for k, x in stores if ptr_parts(x.ptr) == (("arg", 0), tail_o, ())]
+        if is_tail is None:
+            chk.ob("N3.tail-on-removal", sid, False,
+                   "a node is unlinked without asking whether it is list->tail: removing the last node leaves tail dangling, so the next "
+                   "tail insertion is lost", e_unl.inst.loc, fn.name)
+        elif is_tail:
+            r, o, v = ptr_parts(e_unl.ptr)
+            want = paths.mkptr(r, o - next_o) if not v else None
+            chk.ob("N3.tail-on-removal", sid, any(x.val == want for x in tail_st),
+                   "the victim is the tail: tail := the node containing the slot (containerof(slot))", e_unl.inst.loc, fn.name)
+        else:
+            chk.ob("N3.tail-on-removal", sid, not tail_st, "the victim is not the tail: tail unchanged", e_unl.inst.loc, fn.name)
+    chk.expect("N5", "returning segments of list_remove", n_ret, 2)
+
+
 def check_iterators(chk, m, L, N, I):
     head_o, next_o = L["head"], N["next"]
     fn = m.fn("list_iterate")
@@ -277,34 +376,7 @@ def check_iterators(chk, m, L, N, I):
     fn = m.fn("list_remove")
     self_walking = not any(e.kind == "call" and e.callee == "list_contains" for s, p in runs_of(m, fn) for e in p.events)
     if self_walking:
-        # search and unlink in one walk over the links: true is returned exactly on a segment that found the node in the slot it
-        # unlinks (N1 / N3 check the unlink itself), false only at the end of the list and without touching anything
-        n_ret = 0
-        for s, p in runs_of(m, fn):
-            if p.end != "ret" or p.ret is None or p.ret[0] != "c":
-                continue
-            n_ret += 1
-            sid = "list_remove %s..ret %s" % (s.lstrip("%"), bool(p.ret[2]))
-            stores = [e for e in p.events if e.kind == "store"]
-            if p.ret[2]:
-                unl = None
-                for e in stores:
-                    v = strip_casts(e.val)
-                    if v[0] == "ld" and ptr_parts(v[1])[1] == next_o:
-                        victim = ptr_parts(v[1])[0]
-                        found = any(strip_casts(c)[0] == "icmp" and strip_casts(c)[1] in ("eq", "ne") and
-                                    {strip_casts(strip_casts(c)[2]), strip_casts(strip_casts(c)[3])} >= {("arg", 1)} and
-                                    victim in (strip_casts(strip_casts(c)[2]), strip_casts(strip_casts(c)[3]), ("arg", 1)) and
-                                    (strip_casts(c)[1] == "eq") == bool(t) for c, t, i in p.conds)
-                        slot_holds = strip_casts(e.ptr) != victim
-                        if found or victim == ("arg", 1):
-                            unl = e
-                chk.ob("N5.remove-through-found-position", sid, unl is not None,
-                       "true is returned on the segment that unlinks the slot found to hold the node", p.ret_inst.loc, fn.name)
-            else:
-                chk.ob("N5.remove-through-found-position", sid, not stores, "false is returned without modifying the list",
-                       p.ret_inst.loc, fn.name)
-        chk.expect("N5", "returning segments of list_remove", n_ret, 2)
+        check_self_walking_remove(chk, m, fn, L, N)
     for s, p in (runs_of(m, fn) if not self_walking else []):
         calls = [e for e in p.events if e.kind == "call"]
         ct = [e for e in calls if e.callee == "list_contains"]
